@@ -14,6 +14,7 @@ def run(facts, tier):
         ("couplings", lambda fa: cowrite.obligations(fa, ['count_min_sketch']), 4, "fields that every mutator updates together (counters, extremes, cached values) are still updated together"),
         ("tautologies", lambda fa: generic_lints.tautologies(fa, ('count/',)), 2, "no comparison / assignment / min-max with two identical operands, no if-else with identical arms"),
         ("duplicate operands", lambda fa: generic_lints.duplicate_conjuncts(fa, ('count/',)), 2, "no logical chain tests the same operand twice (copy-paste of the wrong peer)"),
+        ("forwarding peers", lambda fa: generic_lints.forwarding_peers(fa, ('count/',)), 8, "one-statement typed overloads forward to an overload of their own name, never to the head of a sibling family (wrong peer)"),
     ):
         o = f(facts)
         obs += o
